@@ -75,7 +75,23 @@ impl<'a> G<'a> {
         if d == 0 {
             return if !ints.is_empty() && self.r.chance(1, 2) { self.r.pick(&ints).clone() } else { self.lit() };
         }
-        match self.r.below(37) {
+        match self.r.below(39) {
+            37 | 38 => {
+                // a branch CONDITION that is a multi-step sequence: a step that may be nil (so the
+                // condition short-circuits to its end with fewer locals), then a binding, and the
+                // CONSEQUENCE loads that binding (directly, from a closure, before a tail call)
+                self.feat("cond-binding-after-nil-step");
+                let (a, b2, c, e) = (self.int(d - 1), self.int(d - 1), self.int(d - 1), self.int(d - 1));
+                let (k, k2) = (self.lit(), self.lit());
+                match self.r.below(6) {
+                    0 => format!("[{a}, {b2}] {{ =[gx, gy], [gx, gy] __integer_add__ =gz => [gz, gx] __integer_multiply__ | 0 }}"),
+                    1 => format!("{a} {{ =ga, ga {{ | ={k} => [] | {b2} }}, [ga, {c}] __integer_add__ =gc => [ga, gc] __integer_multiply__ | {e} }}"),
+                    2 => format!("{a} {{ =ha, ha {{ ={k} => [] | ~ }}, [ha, 1] __integer_add__ =hb, #'int {{ [~, hb] __integer_add__ }} =hf => {c} hf | {e} }}"),
+                    3 => format!("{a} {{ | =ia, ia ={k}, [ia, 2] __integer_add__ =ib => [ia, ib] __integer_add__ | =ic, [ic, 1] __integer_add__ =id => id }}"),
+                    4 => format!("{a} {{ =ja, ja {{ ={k} => [] | ~ }}, {b2} =jb, jb {{ ={k2} => [] | ~ }}, {c} =jc => [ja, jb, jc] .2 | {e} }}"),
+                    _ => format!("{{ lf = #'int {{ | =0 => 0 | =ln, ln {{ =1 => [] | ~ }}, [ln, 2] __integer_subtract__ =lm => lm {{ | [~, 0] __integer_compare__ =1 => lm ^ | 0 }} | 7 }}, {a} lf | 0 }}"),
+                }
+            }
             35 => {
                 // generic functions instantiated at several types
                 self.feat("generic");
